@@ -17,15 +17,16 @@ RULE = ("harness c02: the public GLWE/GGSW operation traits of poulpy-core (add/
 ASSUMPTIONS = [
     "release-mode (wrapping) integer semantics; generated digits stay below 2^57 so that no 64-bit wrap occurs in the exact operations "
     "(the theorems carry the no-wrap hypothesis explicitly)",
-    "C02_phase_shift / C02_phase_normalize are proved from the per-column value statement `column_value_ok` (Section hypothesis; to be "
-    "discharged by C08's normalize_inter_value / lsh_value / rsh_value); the oracle checks the resulting statement on every record",
+    "C02_phase_shift / C02_phase_normalize (same radix) are unconditional: `column_value_ok` is discharged with C08's rsh_assign_value, "
+    "lsh_assign_value, lsh_value, lsh_sub_value, normalize_inter_value, normalize_assign_value (Proofs/C02Discharge.v imports "
+    "Proofs/C08{Chain,Value,Normalize,ShiftValue}.v); glwe_normalize between different radices keeps the hypothesis "
+    "(C02_phase_normalize_any_radix_from_column_value) and is covered by the oracle on every record",
     "operands of one call share base2k wherever the function asserts it; glwe_copy / glwe_rotate / glwe_mul_xp_minus_one do not assert it "
     "and are exercised with equal radices only (limb-wise statement); glwe_negate is also exercised with different radices (value statement)",
 ]
 TRUSTED = ["Model/Ring.v, Model/Limbs.v, Model/Flat.v, Model/DftAbs.v (pmul) as validated by C07/C08/C09's own correspondence checks"]
 
-KEY_SUBNEG = "glwe_sub_negate_assign.rank0_operand"
-KEY_LSH = "glwe_lsh.rank_mismatch_panic"
+# fixed in /repo: glwe_sub_negate_assign.rank0_operand (efc2285), glwe_lsh.rank_mismatch_panic (4e31282)
 KEY_NEG = "glwe_negate.base2k_dead_store"
 
 
@@ -83,10 +84,6 @@ def admissible(code, ps):
 
 def classify(record):
     code, ps, out = _fields(record)
-    if code == 2005 and ps[8] == 0 and ps[5] > 0 and not out.startswith("PANIC"):
-        return KEY_SUBNEG
-    if code in (2015, 2016, 2017) and out.startswith("PANIC:cols:") and ps[8] < ps[5] and admissible(code, ps):
-        return KEY_LSH
     if code == 2006 and ps[4] != ps[7] and not out.startswith("PANIC"):
         return KEY_NEG
     return None
